@@ -61,3 +61,41 @@ func H12() {
 		}
 	}
 }
+
+// H12late: the instantiating module of nodes placed by a module that joins the set after a
+// processing run and after the first queries were answered.
+func H12late() {
+	m := `module m { namespace "urn:m"; prefix m; container c { leaf l { type string; } } }`
+	a := `module a { namespace "urn:a"; prefix a; import m { prefix mm; } container own { leaf ol { type string; } } augment /mm:c { leaf al { type string; } } }`
+	hNoFiles()
+	ms := NewModules()
+	check(ms.Parse(m, "m.yang") == nil, "m loads")
+	early := symBool()
+	if early {
+		check(len(ms.Process()) == 0, "m processes")
+		if symBool() {
+			im, err := ToEntry(ms.Modules["m"]).Dir["c"].InstantiatingModule()
+			check(err == nil && im == "m", "instantiating module of a node of m")
+		}
+		if symBool() {
+			_, err := ms.FindModuleByNamespace("urn:a")
+			check(err != nil, "a namespace no loaded module has is not found")
+		}
+	}
+	check(ms.Parse(a, "a.yang") == nil, "a loads")
+	check(len(ms.Process()) == 0, "the set processes")
+	reach("processed")
+	c := ToEntry(ms.Modules["m"]).Dir["c"]
+	for _, q := range []struct {
+		e    *Entry
+		want string
+	}{{c, "m"}, {c.Dir["l"], "m"}, {c.Dir["al"], "a"}, {ToEntry(ms.Modules["a"]).Dir["own"], "a"}, {ToEntry(ms.Modules["a"]).Dir["own"].Dir["ol"], "a"}} {
+		check(q.e != nil, "node exists")
+		if q.e == nil {
+			continue
+		}
+		im, err := q.e.InstantiatingModule()
+		check(err == nil && im == q.want, "instantiating module is the module whose text placed the node, also for modules that joined the set after earlier queries")
+		check(q.e.Namespace().Name == "urn:"+q.want, "namespace of the module whose text placed the node")
+	}
+}
